@@ -227,6 +227,18 @@ class BaseEstimator:
         landmarks = compute_landmarks(x, gp_type, n_landmarks=n_landmarks)
         return landmarks
 
+    def _predictor_landmarks(self):
+        """
+        The inducing points the predictor conditions on: None for the
+        non-sparse Gaussian Process types, whose latent factor lives on the cells.
+        """
+        if (
+            self.gp_type == GaussianProcessType.FULL
+            or self.gp_type == GaussianProcessType.FULL_NYSTROEM
+        ):
+            return None
+        return self.landmarks
+
     def _compute_rank(self):
         gp_type = self.gp_type
         rank = compute_rank(gp_type)
